@@ -390,6 +390,7 @@ func (c *checker) runGiven(h wm.History, oc otelCfg, pool *wm.Pool) {
 				switch {
 				case d.RespErr && s.Status == codes.Error.String():
 					r.Class("span.status-error-on-failure")
+					r.Class("span.status-judged." + fam + "." + d.Class)
 				case !d.RespErr && s.Status == codes.Ok.String():
 					r.Class("span.status-ok-on-success")
 				case d.RespErr:
@@ -449,6 +450,7 @@ func (c *checker) runGiven(h wm.History, oc otelCfg, pool *wm.Pool) {
 			}
 			if got["status"] == want {
 				r.Class("metric.counted-once-status-" + want)
+				r.Class("metric.status-judged." + fam + "." + d.Class)
 			} else {
 				viol("request-metric-status-"+got["status"]+"-want-"+want+":"+hookErr, fmt.Sprintf("the request was counted with status=%q but the response reports %s", got["status"], map[bool]string{true: "an error", false: "success"}[d.RespErr]))
 			}
@@ -502,7 +504,7 @@ func (c *checker) runGiven(h wm.History, oc otelCfg, pool *wm.Pool) {
 func main() {
 	r := mon.Start("C43")
 	defer r.Finish()
-	r.SetRule("history i = 1..6 calls of C37's class list on one connection / HTTP server (transport by i mod 8: pipe x3, in-process HTTP x3, Unix socket, HTTP listener), every request with a drawn trace context (none, valid sampled/unsampled, with good/malformed tracestate, nine malformed traceparent shapes); OTel config by i: tracing on/off, metrics on/off, sampler always/never/parent-based, RecordExceptions on/off, propagator TraceContext alone or composite; distinct = transport x server config x otel config x (class, trace kind) sequence")
+	r.SetRule("history i = 1..6 calls of C37's class list (incl. handler failures with an RpcError of empty Type: bare, %w-wrapped, Kind only; unary, stream init, stream turn) on one connection / HTTP server (transport by i mod 8: pipe x3, in-process HTTP x3, Unix socket, HTTP listener), every request with a drawn trace context (none, valid sampled/unsampled, with good/malformed tracestate, nine malformed traceparent shapes); OTel config by i: tracing on/off, metrics on/off, sampler always/never/parent-based, RecordExceptions on/off, propagator TraceContext alone or composite; distinct = transport x server config x otel config x (class, trace kind) sequence")
 	r.Assume("the propagator is configured explicitly (W3C TraceContext): with vgiotel.DefaultConfig and no global propagator set, OTel's default propagator is a no-op and no traceparent is ever honoured")
 	r.Assume("'the call failed' = the response reports an error to the client (EXCEPTION batch, status >= 400 or X-VGI-RPC-Error), as in C37; status/outcome demands are made only for dispatched calls in C37's sense")
 	r.Assume("the OTel SDK's TracerProvider / ManualReader and the pass-through recorder wrapped around the hook are trusted")
@@ -528,6 +530,11 @@ func main() {
 		r.Class("replayed-history")
 		c.runGiven(doc.Witness.History, doc.Witness.Otel, nil)
 		return
+	}
+	for _, cl := range wm.UntypedClasses {
+		for _, f := range []string{"pipe", "http"} {
+			r.Require("span.status-judged."+f+"."+cl, "metric.status-judged."+f+"."+cl)
+		}
 	}
 	r.Require("transport.pipe", "transport.unix", "transport.http", "transport.http-net",
 		"tracing.true", "tracing.false", "metrics.true", "metrics.false", "sampler.always", "sampler.never", "sampler.parentbased",
